@@ -36,6 +36,14 @@ type FmtCase struct {
 	// exists; after the first --fmt the original text is written back and formatted again (the same
 	// bytes must format to the same bytes).
 	History string `json:"history,omitempty"`
+	// Broken: a statement that does not parse is put in the middle of the text: --fmt must refuse and
+	// leave every byte of the file alone. ReadOnly: the spokfile cannot be written by the user running
+	// spok (the directory can): refusing is fine, whatever --fmt leaves must be stable.
+	// ClosedStdout: the first --fmt runs with a standard output nobody reads (spok is killed at its
+	// first message): the file is then either untouched or completely formatted.
+	Broken       bool `json:"broken,omitempty"`
+	ReadOnly     bool `json:"read_only,omitempty"`
+	ClosedStdout bool `json:"closed_stdout,omitempty"`
 }
 
 // genFmt draws an abstract program in a random layout whose loading has no side effects
@@ -55,6 +63,14 @@ func genFmt(t *rapid.T) FmtCase {
 		c.History = "edit"
 	case 1:
 		c.History = "restore"
+	}
+	switch rapid.IntRange(0, 11).Draw(t, "trouble") {
+	case 0:
+		c.Broken, c.History = true, ""
+	case 1:
+		c.ReadOnly, c.History = true, ""
+	case 2:
+		c.ClosedStdout, c.History = true, ""
 	}
 	return c
 }
@@ -134,6 +150,9 @@ func (c FmtCase) text() string {
 // execFmtBinary runs `spok --fmt` (twice) on the file and judges the result for property id.
 func execFmtBinary(id string, s *ev.Shard, b *sandbox.Box, c FmtCase) *rp.Fail {
 	src := c.text()
+	if c.Broken {
+		return fmtBroken(id, s, b, c, src)
+	}
 	tree1, err := parser.New(src).Parse()
 	if err != nil {
 		return nil // not this check's business (C06)
@@ -169,9 +188,25 @@ func execFmtBinary(id string, s *ev.Shard, b *sandbox.Box, c FmtCase) *rp.Fail {
 	if err != nil {
 		return &rp.Fail{Sig: "harness", Msg: err.Error()}
 	}
+	if c.ReadOnly {
+		_ = os.Chmod(path, 0o444)
+	}
+	b.ClosedStdout = c.ClosedStdout
 	r1 := b.Run(cwd, nil, runTimeout, fmtArgs...)
 	if r1.TimedOut {
 		return &rp.Fail{Sig: "harness", Msg: "spok --fmt timed out"}
+	}
+	if c.ClosedStdout {
+		// killed at its first message (or not, if it printed nothing): the file is the text as it was or
+		// its formatted form, nothing in between
+		now, _ := os.ReadFile(path)
+		if string(now) != src && string(now) != tree1.String() {
+			return &rp.Fail{Sig: "fmt-left-file-half-written", Size: size, Msg: fmt.Sprintf("spokfile %q: `spok --fmt` with a closed standard output (exit %d) left the file as %q, which is neither the text as it was nor its formatted form %q", clip(src), r1.Exit, clip(string(now)), clip(tree1.String()))}
+		}
+		if s != nil {
+			s.Class("fmt_with_closed_stdout")
+		}
+		return nil
 	}
 	// --fmt rewrites the file it was pointed at and nothing else (the cache directory aside): any
 	// other spokfile lying around keeps working as it did
@@ -370,6 +405,36 @@ func fmtHistory(id string, s *ev.Shard, b *sandbox.Box, c FmtCase, src, f1, path
 		if s != nil {
 			s.Class("fmt_history_restore_and_format_again")
 		}
+	}
+	return nil
+}
+
+// fmtBroken: a text with a statement in the middle that does not parse. Whatever the property, --fmt
+// has nothing to format: it must say so (non-zero exit) and leave the file byte for byte as it is.
+func fmtBroken(id string, s *ev.Shard, b *sandbox.Box, c FmtCase, src string) *rp.Fail {
+	lines := strings.SplitAfter(src, "\n")
+	at := len(lines) / 2
+	broken := strings.Join(lines[:at], "") + "task oops(\"never closed) {\n" + strings.Join(lines[at:], "")
+	if _, err := parser.New(broken).Parse(); err == nil {
+		return nil
+	}
+	if err := b.ResetAs(c.ProjDir); err != nil {
+		return &rp.Fail{Sig: "harness", Msg: err.Error()}
+	}
+	if err := writeProject(b, b.Proj, map[string]string{"spokfile": broken}); err != nil {
+		return &rp.Fail{Sig: "harness", Msg: err.Error()}
+	}
+	path := filepath.Join(b.Proj, "spokfile")
+	r := b.Run(b.Proj, nil, runTimeout, "--fmt")
+	now, _ := os.ReadFile(path)
+	if string(now) != broken {
+		return &rp.Fail{Sig: "fmt-rewrote-unparsable-file", Size: len(broken), Msg: fmt.Sprintf("spokfile %q does not parse; `spok --fmt` (exit %d) nevertheless changed it to %q", clip(broken), r.Exit, clip(string(now)))}
+	}
+	if r.Exit == 0 {
+		return &rp.Fail{Sig: "fmt-accepted-unparsable-file", Size: len(broken), Msg: fmt.Sprintf("spokfile %q does not parse, yet `spok --fmt` exited 0", clip(broken))}
+	}
+	if s != nil {
+		s.Class("fmt_refuses_unparsable_file")
 	}
 	return nil
 }
